@@ -232,7 +232,7 @@ func (e *Env) reportDivergence(binA, binP, world string, idx int) (string, kerne
 		return "", kernel.Violation{}, harnessErr("could not record tape of %s#%d: %v", world, idx, j.Err)
 	}
 	rec := j.Results[0]
-	rf := &replay.File{Depth: e.Depth, Property: "C19", World: world, Prop: "C19", Variant: "asm+purego", VerifSeed: e.Seed, Idx: idx, Tape: rec.Tape}
+	rf := &replay.File{Depth: e.Depth, Procs: 1, Property: "C19", World: world, Prop: "C19", Variant: "asm+purego", VerifSeed: e.Seed, Idx: idx, Tape: rec.Tape}
 	ctr := 0
 	lock := make(chan struct{}, 1)
 	lock <- struct{}{}
